@@ -36,7 +36,7 @@ META = {
         "Positions where exp(ll-max) is within 1e-12 of u are not judged. NaN likelihoods are outside the quantifier and not judged.",
         "design_ref": "DESIGN.md section 4 / C02",
         "rule": _SCHED_RULE + "C02 judges each rejection_sample call against the reference acceptance model built from the recorded uniform vector.",
-        "assumptions": ["L* from the system's own kernel", "-inf likelihoods next to finite ones could not be produced with finite data in this code base (probe inf_next_to_finite reports reach)"],
+        "assumptions": ["L* from the system's own kernel", "-inf likelihoods next to finite ones cannot be produced by the real kernel with finite data in this code base; in ~15% of runs the kernel OUTPUT of designated library rows is overridden to -inf by a helper proxy (sim/llproxy.py, identified by row values so the profile is schedule-independent); probe inf_next_to_finite reports reach"],
     },
     "C03": {
         "level": "exploration",
